@@ -433,7 +433,35 @@ def run(ctx) -> Report:
     # path arguments incl. spellings that are prefixes of one another), judged by an independent walker and an independent reader
     from harness import cli_hist
     cli_hist.run_scenarios(ctx, rep, {'plain': ctx.scale(5, 50), 'oserror': ctx.scale(3, 30)}, CLI_MINE)
+    library_histories(ctx, rep, ctx.scale(36, 400))
     return rep
+
+
+HIST_WEIGHTS = {'snapshot': 4, 'repeat': 4, 'delete': 3, 'delete_foreign': 1, 'clean': 1, 'orphans': 2, 'observe': 1}
+HIST_MINE = ('exception', 'hang', 'restore_mismatch', 'referenced_chunk_missing')
+
+
+def library_histories(ctx, rep, n, seeds=None):
+    """The round trip for a program that uses the library: ONE Repository object per user lives through a whole history of
+    snapshots (also of the same tree again), deletions by itself and by others, clean-ups and snapshots whose upload failed and
+    which are simply run again; every snapshot still listed at the end must restore to exactly the tree it was made of."""
+    import shutil
+    from harness import repo_hist
+    for sd in seeds or [ctx.rng.randint(0, 2 ** 31) for _ in range(n)]:
+        wd = ctx.scratch / f'lib{sd}'
+        wd.mkdir(parents=True, exist_ok=True)
+        sub = Report(rule=RULE)
+        try:
+            _, descr, _ = repo_hist.run_history(sd, wd, sub, nops=10, weights=HIST_WEIGHTS, checks={'restore'}, concurrent=1 + sd % 3,
+                                                delay=0.001, mode='long_lived')
+        finally:
+            shutil.rmtree(wd, ignore_errors=True)
+        rep.case(('library-history', sd), nontrivial=len(descr) >= 3)
+        rep.count('library_histories')
+        for v in sub.violations:
+            if v['signature']['kind'] in HIST_MINE:
+                v['replay'] = {'library_seed': sd, 'what': v['what']}
+                rep.violations.append(v)
 
 
 def search(ctx, broken) -> Report:
@@ -451,6 +479,11 @@ def replay(ctx, obj):
         return rc
     rep = Report(rule=RULE)
     case = obj.get('replay') or {}
+    if 'library_seed' in case:
+        library_histories(ctx, rep, 1, seeds=[case['library_seed']])
+        for v in rep.violations:
+            print('VIOLATION-REPRODUCED', v['what'])
+        return 1 if rep.violations else 0
     if 'tree' not in case:
         print('replay file does not carry a C01 case:', obj.get('kind'))
         return 0
